@@ -180,6 +180,11 @@ func genInts(c *genCtx, sw *shardWriter, j *jb) {
 			withFollow("1"+string(bytes.Repeat([]byte{'0'}, n)), false)
 		}
 	}
+	digitRunInputs(c.thorough(), func(d []byte) {
+		if len(d) > 0 && d[0] != '[' && d[0] != '{' {
+			runInt(sw, j, d, c.st)
+		}
+	})
 	nr := 3000
 	if c.thorough() {
 		nr = 60000
@@ -319,13 +324,18 @@ func runUnesc(sw *shardWriter, j *jb, content []byte, pre []byte, slack int, st 
 	var val, post []byte
 	var p int
 	var err error
+	unchanged := true
 	guardPanic(&panics, func() {
 		data := append(make([]byte, 0, len(content)), content...)
-		dst := make([]byte, len(pre), len(pre)+slack)
-		copy(dst, pre)
+		var dst []byte // a nil destination when there is no prefix and no slack
+		if len(pre) > 0 || slack > 0 {
+			dst = make([]byte, len(pre), len(pre)+slack)
+			copy(dst, pre)
+		}
 		var v []byte
 		v, p, err = rjson.UnescapeStringContent(data, dst)
 		val = append([]byte{}, v...)
+		unchanged = bytes.Equal(data, orig)
 		scribble(data)
 		post = append([]byte{}, v...)
 	})
@@ -347,7 +357,7 @@ func runUnesc(sw *shardWriter, j *jb, content []byte, pre []byte, slack int, st 
 	j.raw(`,"panics":`)
 	j.int(panics)
 	j.raw(`,"unch":`)
-	j.b01(bytes.Equal(orig, content))
+	j.b01(unchanged && bytes.Equal(orig, content))
 	j.raw(`}`)
 	if sw != nil {
 		sw.write(j.b)
@@ -369,6 +379,7 @@ func genStrings(c *genCtx, sw *shardWriter, j *jb) {
 		if len(t) >= 2 && t[0] == '"' {
 			if e := bytes.LastIndexByte(t, '"'); e > 0 {
 				runUnesc(sw, j, t[1:e], []byte{}, slacks[c.rng.Intn(len(slacks))], c.st)
+				runUnesc(sw, j, t[1:e], nil, 0, c.st) // nil destination
 				runUnesc(sw, j, t[1:e], []byte("P\xfe"), slacks[c.rng.Intn(len(slacks))], c.st)
 			}
 		}
@@ -648,6 +659,55 @@ func genToks(c *genCtx, sw *shardWriter, j *jb) {
 			emit(append(append([]byte{}, full...), lit...))
 		}
 	}
+	// whitespace runs of every length up to 17 followed by every byte value, then a token and padding:
+	// word-at-a-time scanners are wrong only at particular alignments and input lengths
+	wsAlphabets := [][]byte{[]byte(" "), []byte("\t"), []byte("\n"), []byte("\r"), []byte(" \t"), []byte("\r\n"), []byte(" \t\r\n")}
+	for k := 0; k <= 17; k++ {
+		for ai, al := range wsAlphabets {
+			if !c.thorough() && ai > 0 && (k+ai)%3 != 0 {
+				continue
+			}
+			run := make([]byte, k)
+			for i := range run {
+				run[i] = al[i%len(al)]
+			}
+			for b := 0; b < 256; b++ {
+				for _, tail := range []string{"", "null      ", "1,2,3,4,5,6,7,8"} {
+					x := append(append(append([]byte{}, run...), byte(b)), tail...)
+					emit(x)
+				}
+				// the byte in the middle of a run
+				if k >= 2 && (c.thorough() || b < 0x30) {
+					x := append([]byte{}, run...)
+					x[k/2] = byte(b)
+					emit(append(x, "true        "...))
+				}
+			}
+		}
+	}
+	// literals (intact and with one wrong byte) followed by padding of several lengths
+	for _, lit := range []string{"true", "false", "null"} {
+		for _, pad := range []string{"", ",1", "       ", "        ", "                 ", ",[1,2,3,4,5,6,7]"} {
+			for _, pre := range []string{"", " ", "        "} {
+				emit([]byte(pre + lit + pad))
+				for pos := 0; pos < len(lit); pos++ {
+					for _, b := range []byte("aeflnrstuyTFN \x00") {
+						x := []byte(pre + lit + pad)
+						x[len(pre)+pos] = b
+						emit(x)
+					}
+				}
+				for cut := 1; cut < len(lit); cut++ {
+					for b := 0; b < 256; b += 1 {
+						if !c.thorough() && b%9 != 0 && b != 'e' && b != 'y' && b != 's' && b != 'l' {
+							continue
+						}
+						emit([]byte(pre + lit[:cut] + string([]byte{byte(b)}) + pad))
+					}
+				}
+			}
+		}
+	}
 	// first-token zoo for type exclusivity
 	for _, s := range []string{"0", "-1", "1.5", "1e3", "-", `""`, `"a"`, `"\n"`, "[]", "[1]", "{}", `{"a":1}`, "]", "}", ",", ":", "nul", "tru",
 		"fals", "n", "t", "f", "truefalse", "nullnull", "0null", `"x"1`, "[", "{", `"`, "1 2", "-0", "00"} {
@@ -720,7 +780,7 @@ var decodeFns = []decodeFn{
 	{"DecodeFloat64", func(d []byte) (bool, int, []int, [][3]interface{}) {
 		v, p, err := rjson.ReadFloat64(d)
 		var runs [][3]interface{}
-		for _, pr := range []float64{-12345.678, math.Inf(1)} {
+		for _, pr := range []float64{-12345.678, math.Inf(1), 0, math.Copysign(0, -1)} {
 			t := pr
 			dp, derr := rjson.DecodeFloat64(d, &t)
 			runs = append(runs, decRun(encF(pr), dp, derr, encF(t)))
@@ -730,7 +790,7 @@ var decodeFns = []decodeFn{
 	{"DecodeInt64", func(d []byte) (bool, int, []int, [][3]interface{}) {
 		v, p, err := rjson.ReadInt64(d)
 		var runs [][3]interface{}
-		for _, pr := range []int64{-987654321, math.MaxInt64} {
+		for _, pr := range []int64{-987654321, math.MaxInt64, 0} {
 			t := pr
 			dp, derr := rjson.DecodeInt64(d, &t)
 			runs = append(runs, decRun(encI(pr), dp, derr, encI(t)))
@@ -740,7 +800,7 @@ var decodeFns = []decodeFn{
 	{"DecodeInt32", func(d []byte) (bool, int, []int, [][3]interface{}) {
 		v, p, err := rjson.ReadInt32(d)
 		var runs [][3]interface{}
-		for _, pr := range []int32{-98765, math.MaxInt32} {
+		for _, pr := range []int32{-98765, math.MaxInt32, 0} {
 			t := pr
 			dp, derr := rjson.DecodeInt32(d, &t)
 			runs = append(runs, decRun(encI(int64(pr)), dp, derr, encI(int64(t))))
@@ -750,7 +810,7 @@ var decodeFns = []decodeFn{
 	{"DecodeInt", func(d []byte) (bool, int, []int, [][3]interface{}) {
 		v, p, err := rjson.ReadInt(d)
 		var runs [][3]interface{}
-		for _, pr := range []int{-98765, math.MaxInt} {
+		for _, pr := range []int{-98765, math.MaxInt, 0} {
 			t := pr
 			dp, derr := rjson.DecodeInt(d, &t)
 			runs = append(runs, decRun(encI(int64(pr)), dp, derr, encI(int64(t))))
@@ -760,7 +820,7 @@ var decodeFns = []decodeFn{
 	{"DecodeUint64", func(d []byte) (bool, int, []int, [][3]interface{}) {
 		v, p, err := rjson.ReadUint64(d)
 		var runs [][3]interface{}
-		for _, pr := range []uint64{987654321, math.MaxUint64} {
+		for _, pr := range []uint64{987654321, math.MaxUint64, 0} {
 			t := pr
 			dp, derr := rjson.DecodeUint64(d, &t)
 			runs = append(runs, decRun(encU(pr), dp, derr, encU(t)))
@@ -770,7 +830,7 @@ var decodeFns = []decodeFn{
 	{"DecodeUint32", func(d []byte) (bool, int, []int, [][3]interface{}) {
 		v, p, err := rjson.ReadUint32(d)
 		var runs [][3]interface{}
-		for _, pr := range []uint32{98765, math.MaxUint32} {
+		for _, pr := range []uint32{98765, math.MaxUint32, 0} {
 			t := pr
 			dp, derr := rjson.DecodeUint32(d, &t)
 			runs = append(runs, decRun(encU(uint64(pr)), dp, derr, encU(uint64(t))))
@@ -780,7 +840,7 @@ var decodeFns = []decodeFn{
 	{"DecodeUint", func(d []byte) (bool, int, []int, [][3]interface{}) {
 		v, p, err := rjson.ReadUint(d)
 		var runs [][3]interface{}
-		for _, pr := range []uint{98765, math.MaxUint} {
+		for _, pr := range []uint{98765, math.MaxUint, 0} {
 			t := pr
 			dp, derr := rjson.DecodeUint(d, &t)
 			runs = append(runs, decRun(encU(uint64(pr)), dp, derr, encU(uint64(t))))
@@ -790,7 +850,7 @@ var decodeFns = []decodeFn{
 	{"DecodeString", func(d []byte) (bool, int, []int, [][3]interface{}) {
 		v, p, err := rjson.ReadString(d, nil)
 		var runs [][3]interface{}
-		for i, pr := range []string{"prior-1", "другой"} {
+		for i, pr := range []string{"prior-1", "другой", ""} {
 			t := pr
 			var sc *[]byte
 			if i == 1 {
@@ -850,7 +910,75 @@ func runDecode(sw *shardWriter, j *jb, fi int, data []byte, st *genStats) {
 	st.noteKey(decodeFns[fi].name+string(data), len(data) > 1)
 }
 
+// runDecSeq: a sequence of DecodeString calls into the same target with the same scratch buffer.
+func runDecSeq(sw *shardWriter, j *jb, inputs [][]byte, st *genStats) {
+	target := "initial"
+	scratch := make([]byte, 0, 4)
+	panics := 0
+	j.reset()
+	j.raw(`{"op":"decseq","prior":`)
+	j.ints(encS(target))
+	j.raw(`,"steps":[`)
+	key := ""
+	for i, in := range inputs {
+		data := append([]byte{}, in...)
+		var rv string
+		var rp, p int
+		var rerr, err error
+		guardPanic(&panics, func() { rv, rp, rerr = rjson.ReadString(append([]byte{}, in...), nil) })
+		guardPanic(&panics, func() { p, err = rjson.DecodeString(data, &target, &scratch) })
+		scribble(data)
+		if i > 0 {
+			j.comma()
+		}
+		j.raw(`{"in":`)
+		j.bytes(in)
+		j.raw(`,"rd":`)
+		j.ints([]int{b2i(rerr == nil), rp})
+		j.raw(`,"rdval":`)
+		j.ints(encS(rv))
+		j.raw(`,"ok":`)
+		j.b01(err == nil)
+		j.raw(`,"p":`)
+		j.int(p)
+		j.raw(`,"after":`)
+		j.ints(encS(target))
+		j.raw(`}`)
+		key += string(in) + "|"
+	}
+	j.raw(`],"panics":`)
+	j.int(panics)
+	j.raw(`}`)
+	if panics > 0 {
+		j.panicEvent("decseq", inputs[0])
+	}
+	if sw != nil {
+		sw.write(j.b)
+	}
+	st.noteKey("decseq"+key, true)
+}
+
 func genDecodes(c *genCtx, sw *shardWriter, j *jb) {
+	// sequences into one target with one scratch buffer: success, then failures and nulls
+	seqPool := []string{`"a\nb"`, `"plain"`, `"\u00e9\t"`, `"x\ty`, `"\q"`, `"abc`, `null`, ` null`, `nul`, `1`, `"😀\ud83d\ude00"`, `""`, `"\"`, `"long\nstring with escapes\t and more"`,
+		"\"a\x01b\"", `"\ud800"`, `"\u12"`, `"ok"`}
+	ns := 400
+	if c.thorough() {
+		ns = 6000
+	}
+	for i := 0; i < ns; i++ {
+		n := 2 + c.rng.Intn(4)
+		var ins [][]byte
+		for k := 0; k < n; k++ {
+			ins = append(ins, []byte(seqPool[c.rng.Intn(len(seqPool))]))
+		}
+		runDecSeq(sw, j, ins, c.st)
+	}
+	for _, a := range seqPool {
+		for _, b := range seqPool {
+			runDecSeq(sw, j, [][]byte{[]byte(a), []byte(b)}, c.st)
+		}
+	}
 	inputs := []string{"null", " null", "\n\tnull ", "nul", "nullx", "null,", "NULL", "n", "nulL", "", " ", "nu ll",
 		"true", "false", " true", "tru", "truex", "1", "-1", "0", "-0", "1.5", "1e3", "1e400", "-1e400", "1e", "1.", "-", "01",
 		"2147483647", "2147483648", "-2147483649", "4294967296", "9223372036854775808", "18446744073709551616", "99999999999999999999",
@@ -1052,6 +1180,19 @@ func init() {
 	replayers["decode"] = func(ev map[string]interface{}) ([]byte, error) {
 		var j jb
 		runDecode(nil, &j, int(ev["fn"].(float64))-1, anyBytes(ev["in"]), newStats())
+		return append([]byte{}, j.b...), nil
+	}
+	replayers["decseq"] = func(ev map[string]interface{}) ([]byte, error) {
+		var j jb
+		var ins [][]byte
+		if steps, ok := ev["steps"].([]interface{}); ok {
+			for _, s := range steps {
+				ins = append(ins, anyBytes(s.(map[string]interface{})["in"]))
+			}
+		} else {
+			ins = [][]byte{anyBytes(ev["in"])}
+		}
+		runDecSeq(nil, &j, ins, newStats())
 		return append([]byte{}, j.b...), nil
 	}
 	replayers["san"] = func(ev map[string]interface{}) ([]byte, error) {
